@@ -7,7 +7,7 @@ vars == <<pc, key, out>>
 
 Families == {"s22", "s23", "s33", "kb"} \cup (IF Tier = "quick" THEN {} ELSE {"s34", "kb3", "s44"})
 A44 == <<<<3, 1, 0, 0>>, <<1, 3, 1, 0>>, <<0, 1, 3, 1>>, <<0, 0, 1, 3>>>>
-KPosSV(d) == {k \in KVariants(d) : k[1] \in {"none", "scalar", "vector"}}
+KPosSV(d) == KVariantsPos(d)    \* none / scalar / vector and the non-negative matrix adaptation
 SystemsOf(f) ==
   CASE f = "s22" -> {Plain(A22, 4, Vec(2, 0), Vec(2, 4)), Plain(A22, 4, Vec(2, 0), <<4, 8>>), Plain(<<<<3, 0>>, <<0, 2>>>>, 4, Vec(2, 0), Vec(2, 4))}
     [] f = "s23" -> {Plain(A23, 4, Vec(3, 0), Vec(3, 4)), Plain(A23b, 4, Vec(3, 0), <<4, 8, 4>>)}
